@@ -13,8 +13,9 @@ sides are fully determined types (no type variable inside).  Clashes carry a cla
   plain        two different ground types met
   rec_nolit    the two types are records that differ only in the type of a field and no
                record literal takes part (both come from predicate signatures)
-  rec_arg_lit  a record literal written directly as a call / head argument has other
-               fields than the record type that position has
+  rec_arg_lit  a record literal written directly as a call argument has other fields
+               than the record type that position has
+  rec_head_lit the same for a record literal written directly as a head field value
 Optional constraints (`strict`): `!=` relates two values of one type, an `if` condition,
 a proposition and the operands of `in` used as a boolean expression are typed.  The lax
 run (strict=False) leaves them out: whatever clashes in the lax run clashes under every
@@ -101,6 +102,17 @@ def ground_or_open(t):
     return True
 
 
+def occurs(v, t):
+    t = find(t)
+    if t is v:
+        return True
+    if t.kind == 'list':
+        return occurs(v, t.elem)
+    if t.kind == 'rec':
+        return any(occurs(v, x) for x in t.fields.values())
+    return False
+
+
 def _key(kv):
     k = kv[0]
     return k if isinstance(k, str) else '%03d' % k
@@ -173,9 +185,18 @@ class Checker(object):
     def clash(self, a, b, cls='plain'):
         if cls == 'plain' and self._cls:
             cls = self._cls
-        self.clashes.append({'a': render(a), 'b': render(b),
+        # sides are kept as type nodes and resolved when the run is over: whether a
+        # side is determined must not depend on the order of traversal
+        self.clashes.append({'ta': a, 'tb': b, 'a': render(a), 'b': render(b),
                              'ground': ground(a) and ground(b), 'cls': cls,
                              'where': self.where})
+
+    def finalize(self):
+        for c in self.clashes:
+            if 'ta' in c:
+                a, b = c.pop('ta'), c.pop('tb')
+                c['a'], c['b'] = render(a), render(b)
+                c['ground'] = ground(a) and ground(b) and c['a'] != c['b']
 
     def unify(self, a, b, ctx=None):
         """ctx: None or ('arglit', n_literal_fields) when b is the type of a record
@@ -186,6 +207,9 @@ class Checker(object):
         if b.kind == 'var' and a.kind != 'var':
             a, b = b, a
         if a.kind == 'var':
+            if b.kind != 'var' and occurs(a, b):
+                self.clash(a, VAR())         # infinite type: not a ground clash
+                return False
             if b.kind == 'var':
                 b.seq = b.seq or a.seq
                 b.sing = b.sing or a.sing
@@ -224,10 +248,10 @@ class Checker(object):
             bad = not (fa <= fb)
         if bad:
             cls = 'plain'
-            if ctx == 'arglit' and a.closed and b.closed:
+            if ctx in ('arglit', 'headlit') and a.closed and b.closed:
                 # either direction: which rule comes first decides which side is the
                 # signature, and the class must not depend on the order
-                cls = 'rec_arg_lit'
+                cls = 'rec_arg_lit' if ctx == 'arglit' else 'rec_head_lit'
             self.clash(a, b, cls)
             return False
         n = len(self.clashes)
@@ -520,7 +544,7 @@ class Checker(object):
                 t = self.expr(h, env)
                 is_rec_lit = h[0] == 'rec' or (h[0] == 'lit' and isinstance(h[1], dict))
             if f in s:
-                self.unify(s[f], t, 'arglit' if is_rec_lit else None)
+                self.unify(s[f], t, 'headlit' if is_rec_lit else None)
             else:
                 s[f] = t
 
@@ -591,6 +615,7 @@ class Checker(object):
                 self.inj(p, inj[p])
             for i in rules_of.get(p, ()):
                 self.rule(i, prog['rules'][i])
+        self.finalize()
         return self
 
     # ------------------------------------------------------------ results
@@ -694,4 +719,5 @@ def isolated_ground_clash(piece, is_literal):
             ck.expr(piece, env)
     except Unsupported:
         return False
+    ck.finalize()
     return any(c['ground'] for c in ck.clashes)
